@@ -189,14 +189,14 @@ func completeMsgDesc(r *rand.Rand, item *Node) *MsgDesc {
 func suiteC01(c *Ctx) []Suite { return append(suiteC01base(c), largeSuites()...) }
 
 func suiteC01base(c *Ctx) []Suite {
-	gen := func(name string, n int, via func(m *MsgDesc) (string, *ast.DataMessage)) Suite {
+	gen := func(name string, n int, via func(r *rand.Rand, m *MsgDesc) (string, *ast.DataMessage)) Suite {
 		return Suite{Name: name, Gen: func(c *Ctx) []Case {
 			closed := GenOpt{MaxDepth: 4, MaxSlots: 6, Big: true, Huge: c.Tier == "thorough"}
 			var out []Case
 			for i := 0; i < c.N(n); i++ {
 				item := genItem(c.R, closed)
 				m := completeMsgDesc(c.R, item)
-				op, msg := via(m)
+				op, msg := via(c.R, m)
 				cs := Case{Op: op, Nontrivial: item.Count() > 1 || len(item.Slots) > 0 || len(item.Str) > 0, Tags: itemTags("", item)}
 				if msg == nil {
 					cs.Oracle = "harness could not build a valid complete message (factory panicked on in-domain input)"
@@ -211,19 +211,19 @@ func suiteC01base(c *Ctx) []Suite {
 		}}
 	}
 	return []Suite{
-		gen("roundtrip/hsms-ctor", 800, func(m *MsgDesc) (string, *ast.DataMessage) {
+		gen("roundtrip/hsms-ctor", 800, func(r *rand.Rand, m *MsgDesc) (string, *ast.DataMessage) {
 			m.HSMS = true
 			msg, _ := buildMsg(m)
 			return "mprog " + m.newStep(), msg
 		}),
-		gen("roundtrip/producers", 500, func(m *MsgDesc) (string, *ast.DataMessage) {
+		gen("roundtrip/producers", 500, func(r *rand.Rand, m *MsgDesc) (string, *ast.DataMessage) {
 			m.HSMS = false
 			w := m.W
 			m.W = 2
 			if w == 1 && m.F%2 == 0 {
 				m.F |= 1
 			}
-			op := fmt.Sprintf("mprog %s | wait %d | sess %d %s", m.newStep(), w, m.Sid, hx(m.Sys))
+			op := fmt.Sprintf("mprog %s | wait %d | %s", m.newStep(), w, m.sessSteps(r))
 			var msg *ast.DataMessage
 			safely(func() {
 				msg0, p := buildMsg(m)
@@ -259,7 +259,7 @@ func suiteC01base(c *Ctx) []Suite {
 					m.F |= 1
 				}
 				m.HSMS = false
-				sess := fmt.Sprintf("sess %d %s", m.Sid, hx(m.Sys))
+				sess := m.sessSteps(c.R)
 				half := len(keys) / 2
 				fills := []string{"fill " + envTokens(asg, keys)}
 				if half > 0 && c.R.Intn(2) == 0 {
@@ -394,10 +394,11 @@ func suiteC02(c *Ctx) []Suite {
 				}
 				item := genItem(c.R, o)
 				m := genMsgDesc(c.R, item, 0)
+				m.HSMS = i%4 == 1 // also through the constructor that takes session id and system bytes
 				steps := []string{m.newStep()}
 				// incomplete in different ways: optional W, variables, no session id
 				if c.R.Intn(3) > 0 {
-					steps = append(steps, fmt.Sprintf("sess %d %s", m.Sid, hx(m.Sys)))
+					steps = append(steps, m.sessSteps(c.R))
 				}
 				if c.R.Intn(3) > 0 {
 					w := c.R.Intn(2)
@@ -849,24 +850,38 @@ func suiteC13base(c *Ctx) []Suite {
 					}
 				}
 			}
-			// one beyond the limit must be refused
+			// one element beyond the limit must be refused by every factory (16,777,216 one-byte
+			// elements; the wide formats are covered above)
+			over := make([]interface{}, 16777216)
+			fillWith := func(v interface{}) []interface{} {
+				for i := range over {
+					over[i] = v
+				}
+				return over
+			}
+			one := ast.NewBinaryNode(1)
 			for _, f := range []struct {
 				name string
-				mk   func()
+				mk   func() ast.ItemNode
 			}{
-				{"ascii 16777216", func() { ast.NewASCIINode(string(make([]byte, 16777216))) }},
-				{"u8 2097152", func() { ast.NewUintNode(8, make([]interface{}, 2097152)...) }},
+				{"ascii 16777216", func() ast.ItemNode { return ast.NewASCIINode(string(make([]byte, 16777216))) }},
+				{"boolean 16777216", func() ast.ItemNode { return ast.NewBooleanNode(fillWith(true)...) }},
+				{"binary 16777216", func() ast.ItemNode { return ast.NewBinaryNode(fillWith(7)...) }},
+				{"i1 16777216", func() ast.ItemNode { return ast.NewIntNode(1, fillWith(int8(-1))...) }},
+				{"u1 16777216", func() ast.ItemNode { return ast.NewUintNode(1, fillWith(uint8(1))...) }},
+				{"i2 8388608", func() ast.ItemNode { return ast.NewIntNode(2, fillWith(int16(-1))[:8388608]...) }},
+				{"u2 8388608", func() ast.ItemNode { return ast.NewUintNode(2, fillWith(uint16(1))[:8388608]...) }},
+				{"list 16777216", func() ast.ItemNode { return ast.NewListNode(fillWith(one)...) }},
 			} {
-				if c.Tier != "thorough" {
-					break
-				}
-				p, _ := safely(f.mk)
+				var it ast.ItemNode
+				p, _ := safely(func() { it = f.mk() })
 				res := ""
 				if !p {
-					res = "item beyond the 16,777,215-byte limit was constructed: " + f.name
+					res = fmt.Sprintf("item beyond the 16,777,215 limit was constructed: %s (encodes to %d bytes)", f.name, len(it.ToBytes()))
 				}
-				out = append(out, Case{Detail: "over-limit " + f.name, Oracle: res, Nontrivial: true})
+				out = append(out, Case{Detail: "over-limit " + f.name, Oracle: res, Nontrivial: true, Tags: []string{"over-limit"}})
 			}
+			over = nil
 			return out
 		}},
 	}
